@@ -120,4 +120,14 @@ Outcome(rawlines) ==
        ELSE IF Len(recs) = 0 THEN [k |-> "fail"]
        ELSE [k |-> "ok", names |-> [i \in 1..Len(recs) |-> recs[i].name], seqs |-> [i \in 1..Len(recs) |-> recs[i].seq],
              gaps |-> [i \in 1..Len(recs) |-> recs[i].gaps]]
+(* what kalign concludes about the input being an alignment (msa_op.c detect_aligned): 1 unaligned, 2 aligned, 3 cannot tell.
+   Gap symbols anywhere and one total row length: aligned; gap symbols but different row lengths, or no gap symbol and
+   one length: cannot tell; no gap symbol and different lengths: unaligned. *)
+SumSeq(v) == FoldLeft(LAMBDA acc, x : acc + x, 0, v)
+AlignedStatus(out) ==
+    LET n == Len(out.seqs)
+        tot(i) == Len(out.seqs[i]) + SumSeq(out.gaps[i])
+        g == FoldLeft(LAMBDA acc, i : acc + SumSeq(out.gaps[i]), 0, [i \in 1..n |-> i])
+        same == \A i, j \in 1..n : tot(i) = tot(j)
+    IN IF g > 0 THEN (IF same THEN 2 ELSE 3) ELSE (IF same THEN 3 ELSE 1)
 =============================================================================
